@@ -163,7 +163,7 @@ var programLevel = []string{
 
 type uploadSite struct {
 	fn        *ssa.Function
-	upload    *ssa.Alloc // the upload report under construction
+	upload    ssa.Value // the upload report under construction: a composite literal here, or the result of a helper that builds one
 	progStore *ssa.Store // upload.Programs = append(upload.Programs, x)
 	x         ssa.Value  // the new ProgramReport appended
 	ctrUpd    []*ssa.MapUpdate
@@ -221,8 +221,13 @@ func findUploadSite(m *Module) *uploadSite {
 		if !ok {
 			continue
 		}
-		al, ok := fa.X.(*ssa.Alloc)
-		if !ok || namedType(al.Type()) != "internal/telemetry.Report" {
+		al := strip(fa.X)
+		if namedType(al.Type()) != "internal/telemetry.Report" {
+			continue
+		}
+		switch al.(type) {
+		case *ssa.Alloc, *ssa.Call:
+		default:
 			continue
 		}
 		if _, f, _ := fieldAddrName(fa); f != "Programs" {
@@ -345,4 +350,80 @@ func branchSucc(v ssa.Value, val bool) []*ssa.BasicBlock {
 	}
 	walk(v, true)
 	return out
+}
+
+// hdrField describes where one header field of a report value comes from.
+type hdrField struct {
+	Base  ssa.Value // the object whose field is copied (in the caller's terms), nil if not a field copy
+	Field string
+	Desc  string
+}
+
+// reportHeader returns, for a report value built by a composite literal in fn or by a
+// helper call, the provenance of its header fields (parameters of the helper are replaced
+// by the call's arguments).
+func reportHeader(fn *ssa.Function, v ssa.Value) (map[string]hdrField, bool) {
+	v = strip(v)
+	out := map[string]hdrField{}
+	mk := func(val ssa.Value, subst map[ssa.Value]ssa.Value) hdrField {
+		if a, ok := subst[strip(val)]; ok {
+			val = a
+		}
+		h := hdrField{Desc: describe(val)}
+		if b, f, ok := fieldLoad(val); ok {
+			if a, ok := subst[strip(b)]; ok {
+				b = a
+				h.Desc = describe(a) + "." + f
+				h.Desc = strings.TrimPrefix(h.Desc, "&")
+			}
+			h.Base, h.Field = strip(b), f
+		}
+		return h
+	}
+	switch x := v.(type) {
+	case *ssa.Alloc:
+		for _, in := range instrsOf(fn) {
+			st, ok := in.(*ssa.Store)
+			if !ok {
+				continue
+			}
+			fa, ok := st.Addr.(*ssa.FieldAddr)
+			if !ok || strip(fa.X) != v {
+				continue
+			}
+			_, f, _ := fieldAddrName(fa)
+			out[f] = mk(st.Val, nil)
+		}
+		return out, true
+	case *ssa.Call:
+		callee := x.Call.StaticCallee()
+		if callee == nil || callee.Blocks == nil {
+			return nil, false
+		}
+		subst := map[ssa.Value]ssa.Value{}
+		for i, p := range callee.Params {
+			if i < len(x.Call.Args) {
+				subst[p] = x.Call.Args[i]
+			}
+		}
+		for _, b := range callee.Blocks {
+			ret, ok := b.Instrs[len(b.Instrs)-1].(*ssa.Return)
+			if !ok || len(ret.Results) == 0 {
+				continue
+			}
+			al, ok := strip(ret.Results[0]).(*ssa.Alloc)
+			if !ok {
+				return nil, false
+			}
+			lit, ok := structLit(al)
+			if !ok {
+				return nil, false
+			}
+			for f, fv := range lit {
+				out[f] = mk(fv, subst)
+			}
+		}
+		return out, true
+	}
+	return nil, false
 }
